@@ -1,6 +1,7 @@
 package main
 
 import (
+	"fmt"
 	"io"
 	"math/big"
 	"math/rand"
@@ -34,7 +35,7 @@ func init() {
 }
 
 func runC13(r *Run, rng *rand.Rand, thorough bool) {
-	r.Rule = "the whole exchange AliceInit → BobMid(WC) → AliceEnd(WC) is run by the library for (a,b) ∈ {0,1,q-1,random}² over ordered pairs of vendored parameter sets; Alice's last step (proof gate + decryption + reduction) is an exact op against the Lean model; non-trivial = distinct op line; direct assertions: alpha+beta ≡ ab (mod q), wrong public point rejected, Bob's mask scripted to the ends of its range and to multiples of q; altered cA / cB rejected (+1, plaintext+1, additive inverse mod N², inverse, square, re-randomisation)"
+	r.Rule = "the whole exchange AliceInit → BobMid(WC) → AliceEnd(WC) is run by the library for (a,b) ∈ {0,1,q-1,random}² over ordered pairs of vendored parameter sets; Alice's last step (proof gate + decryption + reduction) is an exact op against the Lean model; non-trivial = distinct op line; direct assertions: alpha+beta ≡ ab (mod q), wrong public point rejected, Bob's mask scripted to the ends of its range and to multiples of q; altered cA / cB rejected (+1, plaintext+1, additive inverse mod N², the integer −c, inverse, square, re-randomisation)"
 	c := curveByTag("s256")
 	q := c.Params().N
 	fx := loadFixtures()
@@ -180,4 +181,41 @@ func mtaOnce(r *Run, rng *rand.Rand, A, B *keygen.LocalPartySaveData, a, b *big.
 	r.Assert(err != nil, name+".BobMid/altered-cA", "altered-ciphertext-rejected", nil)
 	_, _, _, _, err = mta.BobMid(sess, c, pk, rpf, b, new(big.Int).Sub(N2, cA), A.NTildei, A.H1i, A.H2i, B.NTildei, B.H1i, B.H2i, rdr(rng))
 	r.Assert(err != nil, name+".BobMid/negated-cA", "altered-ciphertext-rejected", func() string { return "N^2-cA with the range proof made for cA" })
+	// the integer −c (same absolute value, so the same bytes under every hash; every even power agrees with c's):
+	// not expressible on the wire, but the exported functions take *big.Int
+	signFlip := func(what string, f func() error) {
+		var err error
+		var pan interface{}
+		func() {
+			defer func() { pan = recover() }()
+			err = f()
+		}()
+		r.Evals++
+		r.Dist[name+"/sign-flip"]++
+		r.Assert(pan == nil, name+"."+what+"/no-panic", "altered-ciphertext-rejected-with-an-error", func() string { return fmt.Sprint(pan) })
+		r.Assert(pan != nil || err != nil, name+"."+what, "altered-ciphertext-rejected", func() string { return "the integer -c in place of c was accepted" })
+	}
+	negA, negB := new(big.Int).Neg(cA), new(big.Int).Neg(cB)
+	signFlip("BobMid/minus-cA", func() error {
+		if wc {
+			_, _, _, _, err := mta.BobMidWC(sess, c, pk, rpf, b, negA, A.NTildei, A.H1i, A.H2i, B.NTildei, B.H1i, B.H2i, Bpt, rdr(rng))
+			return err
+		}
+		_, _, _, _, err := mta.BobMid(sess, c, pk, rpf, b, negA, A.NTildei, A.H1i, A.H2i, B.NTildei, B.H1i, B.H2i, rdr(rng))
+		return err
+	})
+	for _, v := range []struct {
+		what   string
+		cA, cB *big.Int
+	}{{"AliceEnd/minus-cB", cA, negB}} { // (Alice's own cA is not a received value: −cA there is not asserted)
+		v := v
+		signFlip(v.what, func() error {
+			if wc {
+				_, err := mta.AliceEndWC(sess, c, pk, &mta.ProofBobWC{ProofBob: pf, U: dPoint(c, Us)}, Bpt, v.cA, v.cB, A.NTildei, A.H1i, A.H2i, sk)
+				return err
+			}
+			_, err := mta.AliceEnd(sess, c, pk, pf, A.H1i, A.H2i, v.cA, v.cB, A.NTildei, sk)
+			return err
+		})
+	}
 }
